@@ -769,8 +769,13 @@ def gen_fit(rng, tier):
             shrinkage = rng.choice(["off", "global"])
         ops.append(f"fit gboost {rng.below(10**6)} {rng.range(80, 150)} {rng.range(3, 6)} {rng.range(1, 2)} {task} {loss} "
                    f"2 {rng.below(100)} {rng.range(10, 16)} {rng.range(2, 4)} {wscale} {shrinkage} {sub} {protos} {crit} "
-                   f"{rng.below(1000)} {fhex(noise)} {rng.choice([10, 16, 32])} {dup} {show_configs(configs)}")
+                   f"{gboost_seed(rng.below(1000))} {fhex(noise)} {rng.choice([10, 16, 32])} {dup} {show_configs(configs)}")
     return ops
+
+
+def gboost_seed(g):
+    """`gboost::seed` lives in [0, 1024]: both ends of the domain are ordinary seeds and come up one time in four each"""
+    return 0 if g % 4 == 0 else 1024 if g % 4 == 1 else g
 
 
 def gen_fit_grid(rng, tier):
